@@ -385,6 +385,63 @@ func c14(c *Ctx) {
 		})
 	}
 	r.Stat("errno_tests", nErrno)
+	// ---- W7 (continued) the same discipline for error values and validation tests of the text writers
+	inMem := func(rel string) bool { return rel == memPkg }
+	checkErrorPolarity(p, r, "C14.W7", inMem)
+	checkNoDeadComparisons(p, r, "C14.W7", inMem)
+	// ---- W7 (clause) a writer does not report success on the branch where the writer it delegated to failed
+	for _, f := range p.FuncsIn(memPkg) {
+		if f.Blocks == nil || errIndex(f.Signature) < 0 {
+			continue
+		}
+		nInF := 0
+		eachInstr(f, func(i ssa.Instruction) {
+			iff, ok := i.(*ssa.If)
+			if !ok {
+				return
+			}
+			bo, ok := iff.Cond.(*ssa.BinOp)
+			if !ok || (bo.Op != token.EQL && bo.Op != token.NEQ) {
+				return
+			}
+			var e ssa.Value
+			if isNilConst(bo.Y) {
+				e = bo.X
+			} else if isNilConst(bo.X) {
+				e = bo.Y
+			}
+			cl, isCall := e.(*ssa.Call)
+			if e == nil || !isCall {
+				return
+			}
+			cal := staticCallee(cl.Common())
+			if cal == nil || relPkg(cal) != memPkg || errIndex(cal.Signature) < 0 {
+				return
+			}
+			nonNil := iff.Block().Succs[1]
+			if bo.Op == token.NEQ {
+				nonNil = iff.Block().Succs[0]
+			}
+			if len(nonNil.Preds) != 1 {
+				return
+			}
+			nInF++
+			bad := false
+			if ret, ok := nonNil.Instrs[len(nonNil.Instrs)-1].(*ssa.Return); ok && isNilConst(retResult(ret, errIndex(f.Signature))) {
+				used := false
+				for _, ins := range nonNil.Instrs {
+					for _, op := range ins.Operands(nil) {
+						if *op == e {
+							used = true
+						}
+					}
+				}
+				bad = !used
+			}
+			r.Check(!bad, "C14.W7", "failure of "+shortName(cal)+" is not reported as success by "+shortName(f)+" #"+itoa2(nInF), p.Pos(posOf(iff)), "no `return nil` on the failing side",
+				"the writer returns success on the branch where the writer it delegated to reported an error: the caller believes the entry jump (or the restored bytes) were written when they were not")
+		})
+	}
 	// ---- W5 page loops
 	for _, f := range p.FuncsIn(memPkg) {
 		pcs := protCallsIn(p, f, nil)
